@@ -3,4 +3,4 @@ Require Extraction.
 Require Import ExtrOcamlBasic.
 From OFGA Require Import Cache.Consistency.
 Extraction Language OCaml.
-Extraction "c10_model.ml" replay predictions rs0 mkR mkReq.
+Extraction "c10_model.ml" replay predictions rs0 mkR mkReq Nat.add.
